@@ -336,11 +336,13 @@ func (t *Thread) CallContext(def RuntimeContextDef, f func() error) (ctx Runtime
 	defer func() {
 		ctx = t.PopContext()
 		if r := recover(); r != nil {
-			t.closeStack.truncate(h) // No resources to run that, so just discard it.
 			termErr, ok := r.(ContextTerminationError)
 			if !ok {
+				// E.g. the thread is being closed (coroutine.close): its pending
+				// to-be-closed values are still to be closed, by Thread.end.
 				panic(r)
 			}
+			t.closeStack.truncate(h) // No resources to run that, so just discard it.
 			err = termErr
 		}
 	}()
